@@ -196,10 +196,16 @@ def confirm(work, args):
         mc_cfgs = [dict(name="mc", tiers=[tier], consts=tla_consts(shape, verifying), overrides=OVERRIDES)]
         if tier == "thorough":
             mc_cfgs.append(dict(name="mc-deep", tiers=[tier], consts=tla_consts("mc-deep", verifying), overrides=OVERRIDES, timeout=1200))
-        gen_cfgs = [dict(name="gen-" + tier, tiers=[tier], consts=tla_consts(shape, verifying), overrides=OVERRIDES,
-                         harness=[harness_consts(c, shape, verifying) for c in CHAINS[tier]],
-                         shards=16 if tier == "thorough" else 14, rej_sample=dict(dev=40, quick=250, thorough=0)[tier],
-                         may_never_succeed=("Create",) if not SHAPES[shape]["Late"] else ())]
+        # odd shard counts: graph.go assigns states to shards by FNV-1a % shards, whose lowest bit is only a parity
+        def gen(name, chains, rej_sample, shards):
+            return dict(name=name, tiers=[tier], consts=tla_consts(shape, verifying), overrides=OVERRIDES,
+                        harness=[harness_consts(c, shape, verifying) for c in chains], shards=shards, rej_sample=rej_sample,
+                        may_never_succeed=("Create",) if not SHAPES[shape]["Late"] else ())
+        if tier == "thorough":
+            # every operation in every state on eth; on the other chains every accepted edge and a third of the rejected ones
+            gen_cfgs = [gen("gen-thorough", CHAINS[tier][:1], 0, 15), gen("gen-thorough-sampled", CHAINS[tier][1:], 800, 15)]
+        else:
+            gen_cfgs = [gen("gen-" + tier, CHAINS[tier], dict(dev=40, quick=150)[tier], 13)]
         rc1 = graph_property(work, args, pid="C12", module="Confirm", mcmodule="ConfirmMC", pkg="confirm", formulas=CONFIRM_FORMULAS,
                              mc_cfgs=mc_cfgs, gen_cfgs=gen_cfgs, reset_op=CONFIRM_RESET, level_note="", design_ref="5/C12",
                              assumptions=ASSUMPTIONS)
